@@ -61,6 +61,9 @@ __CPROVER_requires(INPUT_STATE(g_ndecl, g_cache_len, g_params_len, g_params[0]._
 __CPROVER_requires(SET_EQ(g_functor.ctx, &g_fn_ctx) && SET_EQ(g_pvals[0], &g_pval_obj[0]) && SET_EQ(g_pvals[1], &g_pval_obj[1]))
 /* a bool member holds 0 or 1 (type invariant of the input object) */
 __CPROVER_requires(*(unsigned char *)&caller->_trace <= 1)
+#ifdef JOB_NO_PARAMS   /* functions without parameters: no bound is involved */
+__CPROVER_requires(g_params_len == 0)
+#endif
 __CPROVER_requires(id < g_ndecl && g_cache_len <= 2 && g_params_len <= PARAMS_MAX)
 __CPROVER_requires(__exc == 0 && __caught_n == 0 && g_cache_pops == 0 && g_create_n == 0 && g_reset_n == 0 && g_store_n == 0 && GLOBALS_PINNED)
 __CPROVER_assigns()
